@@ -33,12 +33,13 @@ func init() {
 			{Name: "audit-ingest-backpressure", Fn: scnC13Backpressure, Weight: 2},
 			{Name: "sshd-handoff-blocked", Fn: scnC13Handoff, Weight: 1},
 			{Name: "auditd-read", Fn: scnC13Read, Weight: 2},
+			{Name: "l3-daemon-cancel", Fn: scnC13L3, Weight: 1},
 		},
 		Rule: "cancellation injected into each blocking state of each worker (ingester waiting for a writer; blocked reading an idle pipe; audit ingester handing a record downstream " +
 			"with a stopped consumer and buffer capacities {1,2,8,64,10000}, buffer empty or full; sshd pipeline handing a login to an unready correlator; audit processor idle / with lines queued / mid-push), " +
-			"either in the constructively established state or at a tape-chosen scheduler step; then a fair schedule with the clock advancing at quiescence: the worker must return within 1 simulated second and 20000 steps " +
+			"either in the constructively established state or at a tape-chosen scheduler step; plus the assembled daemon cancelled at a taped step under traffic; then a fair schedule with the clock advancing at quiescence: the worker must return within 1 simulated second and 20000 steps " +
 			"and stay silent for 10 further simulated seconds while input remains available; non-trivial = the intended blocking state was reached (probe) before cancel; distinct = distinct (state, capacity, fill, cancel step, schedule hash)",
-		Quick: 2800, Thorough: 120000,
+		Quick: 3200, Thorough: 140000,
 	})
 }
 
@@ -412,5 +413,53 @@ func scnC13Read(rc *RunCtx) {
 		rc.Fail("C13", "delivery-after-return", "%d events written after auditd.Read returned (%d lines were queued at return)", len(rec.Events)-evAtReturn, qAtReturn)
 	case took.n > 0:
 		rc.Fail("C13", "delivery-after-return", "a login was taken from the channel after auditd.Read returned")
+	}
+}
+
+// ---- the assembled daemon: cancel at a taped step under traffic ----
+
+func scnC13L3(rc *RunCtx) {
+	c := histCfg{MaxSessions: 3, MaxActions: 4, MaxTotalMs: 3000, SplitSweep: -1}
+	h := genHistory(rc.Spec, c)
+	if err := h.W.Prepare(); err != nil {
+		rc.Abort("world: %v", err)
+		return
+	}
+	sshdTL, auditTL := buildTimelines(h, 0)
+	p := newPipeline(rc, 3, h, sshdTL, auditTL)
+	p.Knobs["auditLogChanBufSize"] = []int{10000, 1, 2, 8}[rc.Spec.Choose(4, "knob.chan")]
+	p.Knobs["bufio"] = []int{4096, 16, 64}[rc.Spec.Choose(3, "knob.bufio")]
+	pol := pipelinePolicy(rc)
+	if err := p.Start(); err != nil {
+		rc.Abort("start: %v", err)
+		return
+	}
+	step := rc.Spec.Choose(400, "cancel.step")
+	n := 0
+	p.Run(func() bool { n++; return n > step }, 5*time.Second, 100*time.Millisecond, 100000)
+	running := !p.Returned
+	writesAtCancel := len(p.disk.Writes)
+	p.cancel()
+	rc.Sim.Count("ctx.cancel")
+	ok, why := settleAfterCancel(rc, func() bool { return p.Returned }, time.Second)
+	rc.CaseKey(h.caseKey(), step)
+	rc.R.NonTrivial = running && step > 10
+	rc.R.Sample = sampleOf(h, map[string]any{"worker": "cmd.RunNamedPipe (all workers)", "cancel_at_step": step, "policy": pol, "writes_at_cancel": writesAtCancel, "returned": p.Returned, "err": fmt.Sprint(p.RetErr), "knobs": p.Knobs})
+	rc.Cleanup(func() { p.teardown() })
+	if !ok {
+		rc.Fail("C13", "no-return-daemon", "the assembled daemon did not return after cancellation (%s) at step %d: %v", why, step, rc.Sim.Live())
+		return
+	}
+	// input keeps coming on both pipes: nothing may be written any more
+	writesAtReturn := len(p.disk.Writes)
+	k := NewKaudit()
+	w1, w2 := p.sshdPipe.OpenWriter(), p.auditPipe.OpenWriter()
+	rc.Sim.Spawn("world.late", func() {
+		w1.Write([]byte(GenLogin(rc.Spec, 9100, 50).Line(false)))
+		w2.Write([]byte(k.Login("990", 9100, 1000).Lines[0] + "\n"))
+	})
+	quietFor(rc, 10*time.Second)
+	if len(p.disk.Writes) != writesAtReturn {
+		rc.Fail("C13", "delivery-after-return", "%d events written to the output after the daemon had returned", len(p.disk.Writes)-writesAtReturn)
 	}
 }
